@@ -291,16 +291,34 @@ class Rotate(Relation):
             'scalar': st.booleans(),
             # N-D coordinate arrays: (2, k), (k, 2) and (k, 1, 2)-shaped
             'nd': st.sampled_from([None, None, 'rows', 'cols', '3d']),
+            # the type the coordinates are held in (whole-number positions
+            # in integer arrays / Python ints), the centre stays fractional
+            # (float32 is not drawn: the rotation of float32 coordinates is
+            # carried out in float32 - 1e-7 relative - which the isometry
+            # tolerance below cannot and should not accommodate)
+            'ptype': st.sampled_from(['float', 'float', 'int64', 'int32',
+                                      'int16']),
         })
 
     def check(self, sp, ctx):
         from regions import PixCoord
         cx, cy = sp['center']
+        pts = sp['pts']
+        pt = sp.get('ptype', 'float')
+        if pt != 'float':
+            lim = {'int16': 3e4, 'int32': 2e9, 'int64': 9e15,
+                   'float32': 1e30}[pt]
+            pts = [[max(-lim, min(lim, float(round(t[0])))),
+                    max(-lim, min(lim, float(round(t[1]))))] for t in pts]
+            ctx.label('rotate:' + pt)
         if sp['scalar']:
-            p = PixCoord(sp['pts'][0][0], sp['pts'][0][1])
+            p = PixCoord(int(pts[0][0]), int(pts[0][1])) if pt.startswith(
+                'int') else PixCoord(pts[0][0], pts[0][1])
         else:
-            xs = np.array([t[0] for t in sp['pts']])
-            ys = np.array([t[1] for t in sp['pts']])
+            xs = np.array([t[0] for t in pts])
+            ys = np.array([t[1] for t in pts])
+            if pt != 'float':
+                xs, ys = xs.astype(pt), ys.astype(pt)
             nd = sp.get('nd')
             if nd and len(xs) >= 2:
                 k = len(xs) // 2
